@@ -28,10 +28,17 @@ static void hermite3(Tape& t, Ctx& c)
 {
   // claimed pairs: Hypercube<1> and Simplex<2> (the quadrilateral variant is outside element-regression-test's pairs)
   ElemCfg e = {"Hermite3", 3, false, false, true, 3, 2, 2, 3, 2};
-  switch(t.pick({1, 2}))
+  switch(t.pick({1, 2, 1}))
   {
   case 0: Check<Space::Hermite3::Element<Trf<H1>>, true, true, true>::run(t, c, e); break;
-  default: Check<Space::Hermite3::Element<Trf<S2>>, true, true, true>::run(t, c, e); break;
+  case 1: Check<Space::Hermite3::Element<Trf<S2>>, true, true, true>::run(t, c, e); break;
+  default: {
+    // quadrilateral variant: outside the reproduction/duality claims (its node functionals and dof counts do not match, it is
+    // not in element-regression-test's pairs), but it is a supported instantiation and its evaluator still has to return
+    // gradients and Hessians that are the derivatives of the returned values on every (also non-parallelogram) cell, in every
+    // evaluation configuration: derivative-consistency op only
+    ElemCfg q = {"Hermite3", 3, false, false, false, 0, 0, 0, 3, 0};
+    Check<Space::Hermite3::Element<Trf<H2>>, true, true, false>::run(t, c, q); break; }
   }
 }
 // ---------------------------------------------------------------------------------------------------------------
